@@ -238,8 +238,25 @@ impl C05 {
 			.find(|t| t.tx_slate_id == Some(id))
 			.map(|t| format!("{:?}", t.tx_type))
 			.unwrap_or_default();
+		let stage = run
+			.model
+			.deal_of(&id)
+			.map(|d| {
+				let d = &run.model.deals[d];
+				format!(
+					"{:?}|{}{}{}{}|{}|{}",
+					d.kind,
+					d.replied as u8,
+					d.locked as u8,
+					d.finalized as u8,
+					d.posted as u8,
+					d.late_lock,
+					std::cmp::min(d.change.len(), 3)
+				)
+			})
+			.unwrap_or_default();
 		run.cov.case(
-			&format!("{}|{}|{}", kind, b.dirty.len(), std::cmp::min(n_other_pending, 3)),
+			&format!("{}|{}|{}|{}", kind, stage, b.dirty.len(), std::cmp::min(n_other_pending, 3)),
 			true,
 		);
 		if n_other_pending > 0 {
